@@ -90,6 +90,10 @@ def compute_shape_features(sig, fs, f_range, center_extrema='peak',
         raise ValueError("This function has been designed to assume that the first extrema "
                          "identified will be a peak. This cannot be overwritten at this time.")
 
+    # Integer-typed signals (e.g. raw A/D counts) are analyzed as floats: integer arithmetic wraps around
+    if np.issubdtype(np.asarray(sig).dtype, np.integer):
+        sig = np.asarray(sig, dtype=float)
+
     # Negate signal if set to analyze trough-centered cycles
     if center_extrema == 'peak':
         pass
